@@ -442,7 +442,7 @@ def tag_debug(case):
 # run in separate interpreters.
 
 PRELUDE_EVERY = int(os.environ.get("VP_PRELUDE_EVERY", "8"))
-PRELUDE_LEN = int(os.environ.get("VP_PRELUDE_LEN", "4"))
+PRELUDE_LEN = int(os.environ.get("VP_PRELUDE_LEN", "6"))
 PRELUDE_CAP = int(os.environ.get("VP_PRELUDE_CAP", "150"))
 PRELUDE_LOG_MAX = 48
 _PRELUDE_POOL: Optional[List[dict]] = None
@@ -507,20 +507,29 @@ def _run_prelude_calls(calls: List[dict], module):
 
 
 def choose_prelude(ctx, sub: str, case, key: bytes) -> List[dict]:
-    """The prelude of a case: calls the module derives from the case (siblings on the same values) followed by generic ones."""
+    """The prelude of a case: generic calls first, then the calls the module derives from the case (siblings on the same
+    values) - last, so that no generic call can wipe the state a sibling leaves behind."""
     import random
 
     rng = random.Random(key)
-    calls: List[dict] = []
+    own: List[dict] = []
     pf = getattr(ctx.module, "prelude_for", None)
     if pf is not None:
         try:
-            calls += [jsonable(c) for c in (pf(sub, case, rng) or [])]
+            own = [jsonable(c) for c in (pf(sub, case, rng) or [])]
         except Exception:
             raise HarnessError(f"{ctx.prop}.prelude_for failed on {sub}:\n{traceback.format_exc()}")
     pool = prelude_pool()
-    calls += [pool[rng.randrange(len(pool))] for _ in range(PRELUDE_LEN)]
-    return calls
+    calls: List[dict] = []
+    groups = getattr(ctx.module, "PRELUDE_GROUPS", None)  # catalogue groups close to the property's code: half of the generic calls
+    if groups:
+        from . import purity
+
+        near = [c for c in pool if purity.CATALOGUE[c["e"]].group in groups]
+        if near:
+            calls += [near[rng.randrange(len(near))] for _ in range(PRELUDE_LEN // 2)]
+    calls += [pool[rng.randrange(len(pool))] for _ in range(PRELUDE_LEN - len(calls))]
+    return calls + own
 
 
 def case_prelude(case):
@@ -612,7 +621,10 @@ class Ctx:
             if DEBUG_EVERY and self._n_run_case % DEBUG_EVERY == 0:
                 t.extra["cases_rejudged_with_debug_logging"] = t.extra.get("cases_rejudged_with_debug_logging", 0) + 1
                 return self._run_once(sub, oracle, case, tally, mode="DEBUG")
-            if self.prelude_enabled and self._n_run_case % PRELUDE_EVERY == PRELUDE_EVERY // 2 and getattr(self, "_n_prelude", 0) < PRELUDE_CAP:
+            # enumeration drivers: cases number 4, 12, 28, 60, 124, ... of a shard item (doubling gaps: the state a prelude leaves
+            # behind persists in the process, so later cases of the item are judged in it anyway)
+            n4 = self._n_run_case + 4
+            if self.prelude_enabled and n4 >= 8 and n4 & (n4 - 1) == 0 and getattr(self, "_n_prelude", 0) < PRELUDE_CAP:
                 self._n_prelude = getattr(self, "_n_prelude", 0) + 1
                 t.extra["cases_rejudged_after_prelude"] = t.extra.get("cases_rejudged_after_prelude", 0) + 1
                 run_prelude_calls(choose_prelude(self, sub, case, digest([sub, jsonable(case)])), self.module)
